@@ -18,7 +18,9 @@ import (
 	"os"
 	"runtime"
 	"runtime/debug"
+	"runtime/pprof"
 	"sort"
+	"strings"
 	"sync"
 	"sync/atomic"
 	"time"
@@ -33,6 +35,7 @@ type Replay struct {
 	Kind  string     `json:"kind"` // case | passA
 	Case  *Case      `json:"case,omitempty"`
 	PassA *PassASpec `json:"pass_a,omitempty"`
+	E2E   *CaseC     `json:"e2e,omitempty"`
 }
 
 var seenKeys sync.Map
@@ -216,6 +219,19 @@ func reportB(r *ev.Run, m misB) {
 
 // ---------------------------------------------------------------------------
 
+// keyC reduces a suite C failure description to a stable key.
+func keyC(bad string) string {
+	switch {
+	case strings.Contains(bad, "was accepted in it"):
+		return "csv-violation-accepted-in-active-period"
+	case strings.Contains(bad, "rules not in force"):
+		return "csv-enforced-before-active"
+	case strings.Contains(bad, "unexpected error"):
+		return "unexpected-error"
+	}
+	return "other"
+}
+
 type comboA struct {
 	name   string
 	spec   TreeSpecA
@@ -241,6 +257,14 @@ func main() {
 					r.Violation(rp.Key, m.what, rp)
 				}
 			}
+		case "e2e":
+			bad, broken := runCaseC(*rp.E2E)
+			if broken != "" {
+				r.Broken("suite C scenario could not be set up: %s", broken)
+			}
+			if bad != "" {
+				r.Violation(rp.Key, bad, rp)
+			}
 		default:
 			r.Broken("unknown replay kind %q", rp.Kind)
 		}
@@ -248,11 +272,17 @@ func main() {
 		r.Finish(false)
 	}
 
+	if pf := os.Getenv("C14_PROF"); pf != "" { // development aid
+		f, _ := os.Create(pf)
+		pprof.StartCPUProfile(f)
+		defer pprof.StopCPUProfile()
+		time.AfterFunc(40*time.Second, func() { pprof.StopCPUProfile(); f.Close(); os.Exit(3) })
+	}
 	thorough := r.Thorough()
 	if thorough {
 		r.SetBudget(13 * time.Minute)
 	} else {
-		r.SetBudget(150 * time.Second)
+		r.SetBudget(240 * time.Second)
 	}
 	workers := runtime.NumCPU()
 	debug.SetGCPercent(400)
@@ -306,7 +336,7 @@ func main() {
 		r.Cap("C14_ONLY=" + only + " (development run)")
 	}
 	for _, cb := range combos {
-		if only == "B" {
+		if only == "B" || only == "C" {
 			break
 		}
 		if r.Expired() {
@@ -422,9 +452,8 @@ func main() {
 	}
 
 	// ---------------- suite B ----------------
-	perm := perms(5)
 	var bTrees, bOrders, bQueries, bDiff int64
-	if (exhaustive || only == "B") && only != "A" {
+	if (exhaustive || only == "B") && only != "A" && only != "C" {
 		mt := buildTreeA(TreeSpecA{N, Y, N, "step", 12}).mt // MTPs of the 600 s step main line
 		far := mt[14] + 1_000_000
 		defsB := []struct {
@@ -448,20 +477,24 @@ func main() {
 				{Start: 1, Timeout: mt[14], Custom: 3},
 			}},
 		}
-		armBits := r.Pick(6, 7)
+		armBits := 6
 		E := 14
-		prefixes := []string{"N", "Y", "YN"}
+		nq := r.Pick(4, 5)
+		prefixes := []string{"N", "YN"}
 		kinds := [][2]int32{{N, Y}}
 		if thorough {
 			kinds = append(kinds, [2]int32{wrong(2), Y})
-			prefixes = append(prefixes, "NYY")
+			prefixes = append(prefixes, "Y", "NYY")
 		}
 		var units []unitB
-		for _, kd := range kinds {
+		for ki, kd := range kinds {
 			for _, db := range defsB {
 				for F := 5; F <= 10; F++ {
-					for _, p := range prefixes {
-						units = append(units, unitB{F: F, E: E, Prefix: p, ArmBits: armBits, K0: kd[0], K1: kd[1], Thr: db.thr, Defs: db.defs})
+					for pi, p := range prefixes {
+						if ki > 0 && pi > 0 {
+							continue // the second vote-kind pair only with the first prefix
+						}
+						units = append(units, unitB{F: F, E: E, Prefix: p, ArmBits: armBits, K0: kd[0], K1: kd[1], Thr: db.thr, Defs: db.defs, NQ: nq})
 					}
 				}
 			}
@@ -496,10 +529,54 @@ func main() {
 			"fork_point_heights": "5..10 (first divergent block at every height of periods 2-3)", "arm_tip_height": E,
 			"arm_vote_patterns": fmt.Sprintf("all 2^min(armlen,%d), bit j mod %d decides arm block j", armBits, armBits),
 			"arm_clocks":        "A: 600 s step; B: 600 s step or 2400 s step", "prefix_vote_patterns": prefixes,
-			"query_points": "tip A, tip B, fork point, last period boundary below each tip", "orders": len(perm),
+			"query_points": "tip A, tip B, fork point, last period boundary below tip B (thorough: also the one below tip A)", "orders": len(perms(nq)),
 			"definition_sets": len(defsB), "units": len(units), "vote_kind_pairs": len(kinds),
 		})
 	}
+
+	// ---------------- suite C: rule gating end to end ----------------
+	var cDone, cActive int64
+	if (exhaustive || only == "C") && only != "A" && only != "B" {
+		cases := casesC()
+		ev.Par(len(cases), workers, func(i int) {
+			if r.Expired() {
+				return
+			}
+			c := cases[i]
+			bad, broken := runCaseC(c)
+			if broken != "" {
+				r.Broken("suite C scenario could not be set up (%+v): %s", c, broken)
+			}
+			if bad != "" {
+				key := "e2e/" + c.Kind + "/" + keyC(bad)
+				if _, loaded := seenKeys.LoadOrStore(key, true); !loaded {
+					for k := 0; k < 3; k++ {
+						if b2, br := runCaseC(c); br != "" || b2 != bad {
+							r.Broken("suite C verdict flips between re-runs (%+v): %q vs %q / %s", c, bad, b2, br)
+						}
+					}
+					r.Violation(key, fmt.Sprintf("%s (case %+v)", bad, c), Replay{Key: key, What: bad, Kind: "e2e", E2E: &c})
+				}
+			}
+			atomic.AddInt64(&cDone, 1)
+			r.Eval(1)
+			r.Trace(1)
+			r.Nontrivial(fmt.Sprintf("C|%+v", c))
+		})
+		if int(cDone) != len(cases) {
+			r.Cap(fmt.Sprintf("suite C: %d of %d cases done", cDone, len(cases)))
+			exhaustive = false
+		}
+		r.Set("suite_C_bounds", map[string]interface{}{
+			"params":  "regtest-like, window 3, threshold 2, CSV on bit 0 always started / never expires; real blocks through ProcessBlock on ffldb",
+			"linear":  "all 2^6 vote patterns of heights 3..8, probe block (BIP68-violating tx) at every height 6..13",
+			"fork":    "common blocks 1..3, two arms with independent votes (heights 4,5 free, heights 6..8 all-yes/all-no: 8 x 8 arm pairs), arm A probed at height 8 or 9, then arm B delivered (reorg) and probed at height 11 or 12",
+			"oracle":  "probe accepted iff the reference state of that block is not ACTIVE; rejected with ErrUnfinalizedTx iff ACTIVE",
+			"n_cases": len(cases),
+		})
+	}
+	_ = cActive
+	r.Add("suite_C_cases", cDone)
 
 	// Out-of-scope probe (recorded, not a verdict): deployment id == number of
 	// deployments.
